@@ -14,6 +14,18 @@ def workload(g, tier):
             xgen.add_foreign(g, it, g.r.randint(1, 2))
         mode = g.pick(["bare", "bare", "o2o", "grouped", "mixed"])
         res.append((cls + "/" + mode, it.meta.get("profile", "?"), xform.respell(it, g, mode).render()))
+    # the wrapper attribute itself in degenerate forms (no argument list, name-value, empty list in any delimiter), on the type and on members
+    from vlib.model import Instr
+    for _ in range(nvalid // 40):
+        it = xgen.gen(g)
+        form = g.pick(["o2o", 'o2o = "x"', "o2o()", "o2o[]", "o2o{}", "o2o(,)"])
+        members = it.fields if it.kind == "struct" else it.variants
+        if members and g.chance(0.7):
+            m = g.pick(members)
+            m.attrs.insert(g.r.randint(0, len(m.attrs)), Instr("foreign", "foreign", text=form))
+        else:
+            it.attrs.insert(g.r.randint(0, len(it.attrs)), Instr("foreign", "foreign", text=form))
+        res.append(("wrapper_degenerate", it.meta.get("profile", "?"), it.render()))
     try:
         from vlib import soup
         for _ in range(nsoup):
